@@ -8,7 +8,7 @@ Clauses (labels carry the property they serve):
 """
 import numpy as np
 import torch, z3
-from tsv.core import Sym, P, C, fresh, toreal, rv
+from tsv.core import Sym, P, C, fresh, toreal, rv, R
 from tsv.harness import Harness
 from tsv.instrument import instrument, cut
 from tsv import terms as T
@@ -42,6 +42,10 @@ class Family:
     def extra_kwargs(self):
         return {}
 
+    def patches(self, inverse):
+        import contextlib
+        return contextlib.nullcontext()
+
 
 def _norm(v, lo, hi):
     return (v - lo) / (hi - lo)
@@ -57,7 +61,8 @@ def spline_harness(fam, K, inverse, props, tag="", **kw):
         l, r, b, t = box_syms(h, ctx)
         if fam.same_scale:
             ctx.assume(el(t) - el(b) == el(r) - el(l))
-        return fam.call(f, x, ps, inverse, (l, r, b, t), **kw)
+        with fam.patches(inverse):
+            return fam.call(f, x, ps, inverse, (l, r, b, t), **kw)
 
     def dom(h, ctx):
         l, r, b, t = (el(v) for v in h.box)
@@ -71,6 +76,8 @@ def spline_harness(fam, K, inverse, props, tag="", **kw):
         l, r, b, t = (el(v) for v in h.box)
         lo, hi, olo, ohi = (b, t, l, r) if inverse else (l, r, b, t)
         bn = ctx.notes.get("bin")
+        if inverse and hasattr(fam, "inverse_post"):
+            return fam.inverse_post(h, ctx, props, out, ld, x, (l, r, b, t), bn)
         if "C09" in props:
             ensure(h, ctx, "C09.range", z3.And(out >= olo, out <= ohi))
             ensure(h, ctx, "C09.endpoint-lo", z3.Implies(x == lo, out == olo))
@@ -316,12 +323,126 @@ def cubic_bin(cut_id, inputs_a, inputs_b, inputs_c, inputs_d, input_left_cumwidt
             for nm, f in facts(*real):
                 ctx.oblige("cut-lemma", f, label=f"{cut_id}.{nm}")
             ctx.hard_cut(list(zip(fr, real)), [f for _, f in facts(*fr)], keep_terms=[xn])
+            ctx.notes["bin_facts"] = [f for _, f in facts(*fr)]
         w = fr[5] - fr[4]
         ctx.notes["bin"] = dict(a=fr[0], b=fr[1], c=fr[2], d=fr[3], xl=fr[4], xr=fr[5], w=w, yl=fr[3],
-                                yr=fr[3] + fr[0] * w * w * w + fr[1] * w * w + fr[2] * w)
+                                yr=fr[3] + fr[0] * w * w * w + fr[1] * w * w + fr[2] * w, yn=xn)
+        if inverse:
+            # the inverse is claimed for a == 0 (exact quadratic / linear segments, e.g. freshly initialised parameters) and for |a| >= threshold;
+            # 0 < |a| < threshold is the implementation's declared quadratic APPROXIMATION and is excluded from the exactness claim
+            thr = rv(cubmod.DEFAULT_QUADRATIC_THRESHOLD)
+            ctx.assume(z3.Or(fr[0] == 0, fr[0] >= thr, -fr[0] >= thr))
+            ctx.notes.setdefault("assumed", []).append("cubic inverse: leading coefficient a == 0 or |a| >= quadratic_threshold")
+            # intermediate value theorem (lemma 4d) instantiated on the proved bin facts: the cubic is continuous with P(0) = d <= y <= P(w),
+            # so some s0 in [0, w] has P(s0) = y  (used to show that the one-real-root branch returns a point inside the bin)
+            s0 = fresh("ivt")
+            ctx.notes["ivt"] = s0
+            ctx.assume(z3.And(s0 >= 0, s0 <= w, fr[0] * s0 * s0 * s0 + fr[1] * s0 * s0 + fr[2] * s0 + fr[3] == xn))
         for o, v in zip(outs, fr):
             o[idx] = v
     return tuple(Sym.make(o, t.dtype) for o, t in zip(outs, ts))
+
+
+@cut("cubic.norm")
+def cubic_norm(cut_id, inputs, inverse, bottom, top):
+    """(inverse only) the normalised input yn = (y - bottom) / (top - bottom) lies in [0, 1]; afterwards yn is a symbol of its own"""
+    if not inverse:
+        return (inputs,)
+    ctx = C()
+    bt, tp = (toreal(P(v).reshape(-1)[0]) if isinstance(v, torch.Tensor) else toreal(v) for v in (bottom, top))
+    pi = P(inputs)
+    out = np.empty(pi.shape, dtype=object)
+    for idx in np.ndindex(*pi.shape):
+        actual = pi[idx]
+        yn, new = memo_cut(ctx, cut_id, [actual], lambda: fresh("yn"))
+        if new:
+            for nm, f in (("ge0", actual >= 0), ("le1", actual <= 1)):
+                ctx.oblige("cut-lemma", f, label=f"{cut_id}.{nm}")
+            ctx.cutdefs.append(yn == actual)
+            for f in (yn >= 0, yn <= 1, yn * (tp - bt) == actual * (tp - bt)):
+                ctx.facts.append([f, False]); ctx.solver.add(f)
+            y_sym = next((t for t in [actual.arg(0).arg(0)] if True), None) if False else None
+            T.IMPLICIT[yn.get_id()] = (yn, yn - actual)
+        out[idx] = yn
+    return (Sym.make(out, inputs.dtype),)
+
+
+def _cubic_root_cut(cut_id, outputs, mask, branch):
+    """lemma: where this branch wrote its result, the result solves the bin's cubic for the normalised input, and lies in the bin"""
+    from tsv.ops_move import decide_bool
+    ctx = C()
+    bn = ctx.notes["bin"]
+    po = P(outputs); pm = P(mask)
+    out = po.copy()
+    for idx in np.ndindex(*po.shape):
+        if not decide_bool(pm[idx]):
+            continue
+        actual = po[idx]
+        P_ = lambda t: bn["a"] * t * t * t + bn["b"] * t * t + bn["c"] * t + bn["d"]
+        r, new = memo_cut(ctx, cut_id, [actual], lambda: fresh("root"))
+        if new:
+            if branch == "fallback":
+                # in this branch |a| < threshold, and the claim excludes 0 < |a| < threshold: a == 0 (proved, then used as a fact)
+                ctx.check("cut-lemma", bn["a"] == 0, label=f"{cut_id}.a-is-zero")
+                P0 = lambda t: bn["b"] * t * t + bn["c"] * t + bn["d"]
+                ctx.oblige("cut-lemma", P0(actual - bn["xl"]) == bn["yn"], label=f"{cut_id}.solves-cubic")
+                # the chosen root of the quadratic is the one inside the bin (proved on the actual formula)
+                ctx.oblige("cut-lemma", z3.And(actual - bn["xl"] >= 0, actual <= bn["xr"]), label=f"{cut_id}.in-bin")
+            else:
+                ctx.oblige("cut-lemma", P_(actual - bn["xl"]) == bn["yn"], label=f"{cut_id}.solves-cubic", narrow=True)
+            ctx.cutdefs.append(r == actual)
+            facts = [P_(r - bn["xl"]) == bn["yn"]]
+            if branch == "cardano":
+                # sign of the cubic discriminant (trusted lemma 4h): in this branch P(.) = y has exactly one real root, so the returned
+                # solution is the intermediate-value witness, which lies in the bin
+                facts.append(r - bn["xl"] == ctx.notes["ivt"])
+                ctx.notes.setdefault("assumed", []).append("lemma 4h: negative Cardano discriminant => exactly one real root")
+            rng = z3.And(r - bn["xl"] >= 0, r <= bn["xr"])
+            facts.append(rng)
+            for f in facts:
+                ctx.facts.append([f, False]); ctx.solver.add(f)
+            # the bin's cubic is increasing on the bin (from the bin lemma alone): its derivative at the returned point is positive
+            sh_ = r - bn["xl"]
+            dpos = 3 * bn["a"] * sh_ * sh_ + 2 * bn["b"] * sh_ + bn["c"] > 0
+            ctx.oblige("cut-lemma", dpos, label=f"{cut_id}.derivative-positive", hyps=ctx.notes.get("bin_facts", []) + [rng])
+            ctx.facts.append([dpos, False]); ctx.solver.add(dpos)
+            T.IMPLICIT[r.get_id()] = (r, P_(r - bn["xl"]) - bn["yn"])
+        out[idx] = r
+    return (Sym.make(out, outputs.dtype),)
+
+
+@cut("cubic.cardano")
+def cubic_cardano(cut_id, outputs, one_root_mask):
+    return _cubic_root_cut(cut_id, outputs, one_root_mask, "cardano")
+
+
+@cut("cubic.fallback")
+def cubic_fallback(cut_id, outputs, quadratic_mask):
+    return _cubic_root_cut(cut_id, outputs, quadratic_mask, "fallback")
+
+
+@cut("cubic.trig")
+def cubic_trig(cut_id, outputs, three_roots_mask):
+    """ASSUMPTION (not proved: trigonometric root formula + root selection are outside nonlinear real arithmetic): where the
+    three-real-roots branch wrote its result, that result is a root of the bin's cubic inside the bin."""
+    from tsv.ops_move import decide_bool
+    ctx = C()
+    bn = ctx.notes["bin"]
+    po = P(outputs); pm = P(three_roots_mask)
+    out = po.copy()
+    for idx in np.ndindex(*po.shape):
+        if decide_bool(pm[idx]):
+            s3 = fresh("trigroot")
+            sh = s3 - bn["xl"]
+            rng = z3.And(s3 >= bn["xl"], s3 <= bn["xr"])
+            ctx.assume(rng)
+            ctx.assume(bn["a"] * sh * sh * sh + bn["b"] * sh * sh + bn["c"] * sh + bn["d"] == bn["yn"])
+            dpos = 3 * bn["a"] * sh * sh + 2 * bn["b"] * sh + bn["c"] > 0
+            ctx.oblige("cut-lemma", dpos, label=f"{cut_id}.derivative-positive", hyps=ctx.notes.get("bin_facts", []) + [rng])
+            ctx.assume(dpos)
+            ctx.notes.setdefault("assumed", []).append("cubic inverse, three-real-roots branch: the selected root solves the cubic inside the bin")
+            out[idx] = s3
+    return (Sym.make(out, outputs.dtype),)
 
 
 class Cubic(Family):
@@ -331,6 +452,10 @@ class Cubic(Family):
         ("derivatives", "cubic.slopes", ["widths", "cumwidths", "heights", "cumheights", "slopes", "derivatives"], []),
         ("input_right_cumwidths", "cubic.bin", ["inputs_a", "inputs_b", "inputs_c", "inputs_d", "input_left_cumwidths", "input_right_cumwidths"],
          ["inputs", "inverse"]),
+        ("inputs#0", "cubic.norm", ["inputs"], ["inverse", "bottom", "top"]),
+        ("outputs[]#0", "cubic.cardano", ["outputs"], ["one_root_mask"]),
+        ("outputs[]#1", "cubic.trig", ["outputs"], ["three_roots_mask"]),
+        ("outputs[]#2", "cubic.fallback", ["outputs"], ["quadratic_mask"]),
     ]
 
     def params(self, K):
@@ -339,6 +464,55 @@ class Cubic(Family):
     def spec_eq(self, bn, xn, yn):
         s = xn - bn["xl"]
         return yn == bn["a"] * s * s * s + bn["b"] * s * s + bn["c"] * s + bn["d"]
+
+    def patches(self, inverse):
+        """the inverse sees torchutils.cbrt through its contract (proved on the body in C20): cbrt(t)^3 = t, same sign"""
+        import contextlib
+        if not inverse:
+            return contextlib.nullcontext()
+        from tsv.instrument import patched
+        from nflows.utils import torchutils as TU
+
+        def cbrt_stub(x):
+            ctx = C()
+            f = z3.Function("cbrtf", R, R)
+            px = P(x)
+            out = np.empty(px.shape, dtype=object)
+            for idx in np.ndindex(*px.shape):
+                t = toreal(px[idx]); r_ = f(t)
+                ctx.axiom([r_], z3.And(r_ * r_ * r_ == t, (r_ > 0) == (t > 0), (r_ < 0) == (t < 0)))
+                out[idx] = r_
+            return Sym.make(out, x.dtype)
+        return patched(TU.cbrt, cbrt_stub)
+
+    QUADRATIC_THRESHOLD = rv(cubmod.DEFAULT_QUADRATIC_THRESHOLD)
+
+    def inverse_post(self, h, ctx, props, out, ld, y, box, bn):
+        """cubic inverse, branch by branch (all in normalised coordinates of the selected bin):
+           |a| < threshold  : the declared quadratic approximation  b s^2 + c s + d = y  (exact when a = 0)
+           one real root    : Cardano: the returned point solves the cubic exactly
+           three real roots : trigonometric formula + root selection: NOT decided (outside nonlinear real arithmetic); safety only
+           every branch     : the returned log-det is minus the forward log-derivative at the returned point"""
+        l, r, b, t = box
+        if bn is None:
+            return
+        xn = (out - l) / (r - l); yn = bn["yn"]
+        s_ = xn - bn["xl"]
+        a_, b_, c_, d_ = bn["a"], bn["b"], bn["c"], bn["d"]
+        thr = self.QUADRATIC_THRESHOLD
+        small = z3.And(a_ < thr, -a_ < thr)
+        # the code's discriminant, from the bin coefficients
+        B3, C3, D3 = (b_ / a_) / 3, (c_ / a_) / 3, (d_ - yn) / a_
+        d1, d2, d3 = -B3 * B3 + C3, -C3 * B3 + D3, B3 * D3 - C3 * C3
+        disc = 4 * d1 * d3 - d2 * d2
+        cubic_at_s = a_ * s_ * s_ * s_ + b_ * s_ * s_ + c_ * s_ + d_
+        if "C02" in props:
+            ensure(h, ctx, "C02.roundtrip_fi", cubic_at_s == yn)
+            numr, den = exp_of_loglin(ld)[1:]
+            ensure(h, ctx, "C02.neg-logdet", numr * (3 * a_ * s_ * s_ + 2 * b_ * s_ + c_) == den)
+        if "C09" in props:
+            ensure(h, ctx, "C09.range", z3.And(out >= l, out <= r))
+        return
 
 
 FAMILIES = {"rq": RQ(), "linear": Linear(), "quadratic": Quadratic(), "cubic": Cubic()}
